@@ -363,6 +363,10 @@ def _wrapper(ctx, P):
             if not (isinstance(x, Obj) and x.name == nm and all(op in ("rename", "transpose", "copy") for op in ops)):
                 bad = bad or (f"argument {pos} of the kernel is {x!r} (operations {ops}); the caller's `{nm}` values must be passed as they are" +
                               (" - a subscript with the dimension name selects the dimension *coordinate*, not the array of bin edges" if ops and "getitem" in ops else ""))
+    if not bad and isinstance(out, Obj):
+        others = [e[0] for e in out.eff if e[0] not in ("rename", "copy", "transpose", "assign_coords", "rename-name")]
+        if others:
+            bad = f"the wrapper returns its result after {[e[0] for e in out.eff]}: the kernel's output is altered by {others}"
     if not bad:
         if not (isinstance(out, Obj) and out.name == "APPLIED" and out.attrs.get("dims", ())[-1] == Sym("lev")):
             bad = f"the result's new dimension is {getattr(out, 'attrs', {}).get('dims')}, expected the target's dimension `lev`"
